@@ -721,7 +721,7 @@ func runSystemStream(c sysStreamCase) (msg string, labels []string, nontrivial b
 	sys.StartServiceWithPublisher(false)
 	defer sys.Stop()
 	lab := map[string]bool{}
-	var added atomic.Int64
+	var added, started atomic.Int64 // AddEvent returned / AddEvent about to be called
 	stopReader := make(chan struct{})
 	if c.Reader {
 		lab["concurrent-history-reader"] = true
@@ -740,6 +740,7 @@ func runSystemStream(c sysStreamCase) (msg string, labels []string, nontrivial b
 	go func() {
 		defer close(done)
 		for i := 0; i < c.Total; i++ {
+			started.Add(1)
 			sys.AddEvent(&si.EventRecord{ObjectID: fmt.Sprintf("p%d", i)})
 			added.Add(1)
 			if i%5 == 0 {
@@ -759,7 +760,7 @@ func runSystemStream(c sysStreamCase) (msg string, labels []string, nontrivial b
 		}
 		s := &sub{count: c.Counts[i], at: int(added.Load())}
 		s.stream = sys.CreateEventStream(fmt.Sprintf("sys-%d", i), s.count)
-		s.b = int(added.Load())
+		s.b = int(started.Load()) // every event from this index on is submitted after the subscription returned
 		subs = append(subs, s)
 		if s.at > 0 && s.at < c.Total {
 			nontrivial = true
